@@ -22,7 +22,7 @@ package sasl
   (props C13 C05 C04)
   (use be16 fields)
   (requires nonempty (>= (len parts) 1))
-  (modifies rin sc_rest sc_tok sc_err sc_split (elems parts))
+  (modifies rin sc_rest sc_tok sc_err sc_split sc_max (elems parts))
   (ensures ok-fields (=> (= $r0 nil)
       (and (fok (old (select rin reader)) (len parts))
            (forall ((j Int)) (=> (and (<= (off parts) j) (< j (+ (off parts) (len parts))))
@@ -78,7 +78,7 @@ package sasl
 (func "(*sasl.Request).Decode"
   (props C13 C05 C04)
   (use be16 fields frest-unfold)
-  (modifies rin sc_rest sc_tok sc_err sc_split (. r Login) (. r Password) (. r Service) (. r Realm))
+  (modifies rin sc_rest sc_tok sc_err sc_split sc_max (. r Login) (. r Password) (. r Service) (. r Realm))
   (ensures ok (=> (= $r0 nil)
       (and (fok (old (select rin reader)) 4)
            (= (. r Login) (ffield (old (select rin reader)) 0))
@@ -142,7 +142,7 @@ package sasl
 (func "(*sasl.Response).Decode"
   (props C13 C05)
   (use be16 fields frest-unfold)
-  (modifies rin sc_rest sc_tok sc_err sc_split (. r Result) (. r Message))
+  (modifies rin sc_rest sc_tok sc_err sc_split sc_max (. r Result) (. r Message))
   (ensures ok (=> (= $r0 nil)
       (and (fok (old (select rin reader)) 1)
            (>= (str.len (ffield (old (select rin reader)) 0)) 2)
@@ -216,7 +216,7 @@ package sasl
 (func "(*sasl.Server).handleConnection"
   (props C05 C04)
   (use be16 fields)
-  (modifies rin sc_rest sc_tok sc_err sc_split wout wcalls closed cbcalls cblogin cbpassword cbservice cbrealm cbok cberr)
+  (modifies rin sc_rest sc_tok sc_err sc_split sc_max wout wcalls closed cbcalls cblogin cbpassword cbservice cbrealm cbok cberr)
   (callsite "sasl.AuthCB" 0
     (requires decoded-args (and (fok (old (select rin conn)) 4)
         (= $0 (ffield (old (select rin conn)) 0)) (= $1 (ffield (old (select rin conn)) 1))
